@@ -505,6 +505,17 @@ func hasFactRec(in ssa.Instruction, pred func(f fact) bool, depth int) bool {
 // boolFact matches a fact on a boolean value (through negations).
 func boolFact(f fact, match func(v ssa.Value) bool, want bool) bool {
 	c, v := f.Cond, f.Val
+	// the condition may be the result of a private helper (s.contains(key)): the value it returns is matched
+	// with the helper's parameters standing for the arguments of that very call
+	var site ssa.Instruction
+	m := func(x ssa.Value) bool {
+		if site == nil {
+			return match(x)
+		}
+		r := false
+		withSite(site, func() { r = match(x) })
+		return r
+	}
 	for i := 0; i < 8; i++ {
 		u, ok := c.(*ssa.UnOp)
 		if ok && u.Op == token.NOT {
@@ -513,15 +524,20 @@ func boolFact(f fact, match func(v ssa.Value) bool, want bool) bool {
 			continue
 		}
 		if o := origin(c); o != c {
-			if v == want && match(c) {
+			if v == want && m(c) {
 				return true
+			}
+			if call, isCall := c.(*ssa.Call); isCall && helperCallee(call) != nil && site == nil {
+				if oi, isI := o.(ssa.Instruction); isI && oi.Parent() == helperCallee(call) {
+					site = call
+				}
 			}
 			c = o
 			continue
 		}
 		break
 	}
-	return v == want && match(c)
+	return v == want && m(c)
 }
 
 // nilFact: fact "X == nil" (isNil true) or "X != nil" for a value matching m.
